@@ -37,6 +37,8 @@ func main() {
 		schemaMain(os.Args[2:])
 	case "live":
 		liveMain(os.Args[2:])
+	case "cols":
+		colsMain(os.Args[2:])
 	default:
 		fmt.Fprintf(os.Stderr, "unknown family %q\n", os.Args[1])
 		os.Exit(2)
